@@ -50,6 +50,13 @@ const (
 
 var c04identName = []string{"L", "T", "S", "U"}
 
+// c04AckBound is how long a request may stay unanswered before it counts as "received no acknowledgement".
+// The property text gives no bound; the wire protocol does: the requesting client stops waiting for its
+// TunnelOpenAck after 30 s. (The dispatcher's own internal waits - polling a routing record that has just been
+// removed, waiting for a local bridge - answer within that window; a 7 s bound used earlier mis-reported the
+// failure ack sent after a 10 s routing poll as silence.)
+const c04AckBound = 30*time.Second + 500*time.Millisecond
+
 const (
 	c04no = iota
 	c04yes
@@ -136,6 +143,7 @@ func init() {
 			"an empty secret is never 'the mapping's secret', except the deliberate don't-care cell: the mapping's authenticated target presenting the mapping id and an empty secret for a valid empty-secret mapping whose tunnel already exists is neither required nor forbidden to attach",
 			"listener presenting the mapping id together with a wrong secret, and a right secret presented under another mapping id, are allowed but not required to attach",
 			"attachment of an entitled party to whichever side (source/target) is not judged",
+			"'receives a failure acknowledgement' is judged within the 30 s the protocol's client waits for a TunnelOpenAck (plus any injected store stall); the text itself gives no bound",
 		},
 		Opt: func(tier string) simrt.Options { return simrt.Options{MaxSteps: 2500000, MaxIdle: 2 * time.Hour} },
 		Run: c04Run,
@@ -715,7 +723,7 @@ func (r *c04run) fire(pc *c04conn) {
 	}
 	// a stalled store may delay the answer by the length of the stall, never suppress it
 	// (nor may a stall still in progress from an earlier request, which callers sharing a storage read wait for)
-	ackWait := 7*time.Second + sp.stall
+	ackWait := c04AckBound + sp.stall
 	if rem := r.stallUntil - w.Now(); rem > 0 {
 		ackWait += rem
 	}
